@@ -162,6 +162,17 @@ def r2(ctx):
                         continue
                 ok = True
         ctx.check(ok, R, "_drain_message_queue:expiry-before-write", m, wcall, f"every write is dominated by the true branch of `loop.time() < {var}.expiry`, the clock being read after the entry was popped", found)
+    # nothing suspends between the expiry test and the bytes reaching the stream: the test is about the moment of the write
+    wr = sock_fn(ctx, "_write")
+    firsts = [n for n, c in wr.calls("self._writer.write")] + [n for n, c in wr.calls("self._writer.writelines")]
+    ctx.require(firsts, "socket._write: no self._writer.write (see C01.R4)")
+    early = [n for n in wr.cfg.nodes if n.awaits and any(wr.cfg.exists_path(n.id, f.id, labels=NONEXC) for f in firsts) and not any(wr.cfg.exists_path(f.id, n.id, labels=NONEXC) and not wr.cfg.exists_path(n.id, f.id, labels=NONEXC) for f in firsts)]
+    ctx.check(not early, R, "_write:no-await-before-the-bytes-are-written", m, (early[0].ast if early else wr.node), "_write suspends only after the frame was handed to the stream (an await before the first write lets the lifetime run out between the expiry test and the transmission)", f"`{norm_text(early[0].ast)[:80]}` at line {early[0].lineno} can suspend before the first write" if early else "")
+    for wn, wcall in writes:
+        tests_ok = [t for t in drain.tests(lambda e: isinstance(e, ast.Compare)) if any(drain.cfg.dominates(drain.branch(t, lab).id, wn.id) for lab in ("true", "false")) and "expiry" in norm_text(t.ast)]
+        for t in tests_ok:
+            aw = [a for a in drain.awaits_between(t, wn) if a.id != wn.id]
+            ctx.check(not aw, R, "_drain_message_queue:no-await-between-expiry-test-and-write", m, wcall, "nothing is awaited between the expiry test and the call of _write", f"await at line {aw[0].lineno}" if aw else "")
     # expiry fixed at acceptance
     swh = sock_fn(ctx, "send_with_header")
     for n, call in swh.calls("_MessageQueueEntry"):
@@ -503,9 +514,11 @@ def r6(ctx):
         for c in constructs:
             p, kind, ci, mem = c
             label = f"{qual}:{p}{'==' + ci.name + '.' + mem if kind == 'member' else ' isinstance ' + ci.name}"
-            if not reachable(c):
+            mentioned = cond_expr is not None and any(atom_matches(a_, c) for a_ in bool_atoms(cond_expr))
+            if not reachable(c) and not mentioned:
                 ctx.holds(R, label, m, snd.node, f"construct cannot reach the sender (value set of '{p}': {sorted(map(str, reach[p]))})")
                 continue
+            # a construct the condition names is decided even when no caller passes it today: the sender claims to handle it
             if cond_expr is None:
                 ctx.violation(R, label, m, scall, "an accumulating command selects RETRY_NON_IDEMPOTENT", "no conditional RETRY_NON_IDEMPOTENT assignment")
                 continue
